@@ -178,6 +178,10 @@ class Banana(protocol.Protocol, styles.Ephemeral):
     buffer = b""
 
     def dataReceived(self, chunk):
+        if not chunk:
+            # An empty delivery carries no information; with a partial item
+            # buffered it would otherwise trip the progress assertion below.
+            return
         buffer = self.buffer + chunk
         listStack = self.listStack
         gotItem = self.gotItem
